@@ -5,6 +5,8 @@ import (
 	"github.com/lni/dragonboat/v4/internal/rsm"
 	"github.com/lni/dragonboat/v4/internal/verifhook"
 	"io"
+	"os"
+	"strings"
 	"sync"
 	"sync/atomic"
 	"time"
@@ -13,8 +15,10 @@ import (
 
 	dragonboat "github.com/lni/dragonboat/v4"
 	"github.com/lni/dragonboat/v4/config"
+	"github.com/lni/dragonboat/v4/internal/fileutil"
 	"github.com/lni/dragonboat/v4/internal/logdb"
 	"github.com/lni/dragonboat/v4/internal/logdb/kv/pebble"
+	"github.com/lni/dragonboat/v4/internal/server"
 	"github.com/lni/dragonboat/v4/internal/tan"
 	"github.com/lni/dragonboat/v4/raftio"
 	pb "github.com/lni/dragonboat/v4/raftpb"
@@ -502,6 +506,7 @@ func (h *Host) Start() error {
 		h.CheckRecovered(frozen)
 	}
 	for _, s := range starts {
+		h.checkSnapshotDirs(s)
 		if err := h.startReplica(s, true); err != nil {
 			return err
 		}
@@ -631,6 +636,7 @@ func (h *Host) CrashFinish() map[[2]uint64]*Shadow {
 	if h.FS != nil {
 		h.FS.ResetToSyncedState()
 		h.FS.SetIgnoreSyncs(false)
+		repairNames(h.FS, "/")
 		h.c.SMs.PowerLoss(h.Index)
 	}
 	h.mu.Lock()
@@ -701,4 +707,156 @@ func (c *Cluster) Members(n int) map[uint64]dragonboat.Target {
 		m[uint64(i+1)] = c.Hosts[i].Addr
 	}
 	return m
+}
+
+// checkSnapshotDirs (C16 at node level): called on a host that comes back (after a power loss
+// at an arbitrary moment of its snapshot workers, or after a graceful stop) with the log store
+// open and before the replica is started. It runs the replica's real start-up cleanup
+// (snapshotter.processOrphans, exactly what NodeHost.startShard runs first) and then demands
+// what the property states: only the snapshot recorded in the log store remains, complete and
+// loadable, no temporary / flagged directory is left.
+func (h *Host) checkSnapshotDirs(s startRec) {
+	if h.inner == nil {
+		return
+	}
+	fs := h.Disk
+	name := fmt.Sprintf("snapshot-%d-%d", s.shardID, s.replicaID)
+	var find func(dir string, depth int) string
+	find = func(dir string, depth int) string {
+		names, err := fs.List(dir)
+		if err != nil {
+			return ""
+		}
+		for _, n := range names {
+			p := fs.PathJoin(dir, n)
+			if n == name {
+				return p
+			}
+			if depth > 0 {
+				if fi, err := fs.Stat(p); err == nil && fi.IsDir() {
+					if f := find(p, depth-1); f != "" {
+						return f
+					}
+				}
+			}
+		}
+		return ""
+	}
+	dir := find(h.Dir, 4)
+	if dir == "" {
+		return // the replica never got as far as creating its directory
+	}
+	sink := h.c.Sink
+	before, _ := fs.List(dir)
+	fail := func(key, what string, extra map[string]interface{}) {
+		after, _ := fs.List(dir)
+		w := map[string]interface{}{"host": h.Index, "shard": s.shardID, "replica": s.replicaID, "dir": dir,
+			"listing_before_cleanup": before, "listing_after_cleanup": after, "restarts": h.Restarts}
+		for k, v := range extra {
+			w[k] = v
+		}
+		sink.Violation("C16", key, fmt.Sprintf("host %d replica %d: %s", h.Index, s.replicaID, what), w)
+	}
+	ss := dragonboat.NewVerifSnapshotter(s.shardID, s.replicaID, func(uint64, uint64) string { return dir },
+		h.inner, logdb.NewLogReader(s.shardID, s.replicaID, h.inner), fs)
+	var cerr error
+	panicked := func() (p interface{}) {
+		defer func() { p = recover() }()
+		cerr = ss.ProcessOrphans()
+		return nil
+	}()
+	if panicked != nil || cerr != nil {
+		fail("startup-cleanup-fails", fmt.Sprintf("the start-up cleanup of the snapshot directory failed: err=%v panic=%v", cerr, panicked), nil)
+		return
+	}
+	sink.Count("snapshot_dirs_checked_after_restart", 1)
+	rec, err := h.inner.GetSnapshot(s.shardID, s.replicaID)
+	if err != nil {
+		fail("record-unreadable", fmt.Sprintf("GetSnapshot failed: %v", err), nil)
+		return
+	}
+	names, _ := fs.List(dir)
+	want := ""
+	if rec.Index > 0 {
+		want = server.GetSnapshotDirName(rec.Index)
+	}
+	seen := false
+	for _, n := range names {
+		fi, err := fs.Stat(fs.PathJoin(dir, n))
+		if err != nil || !fi.IsDir() {
+			continue
+		}
+		switch {
+		case n == want:
+			seen = true
+		case strings.HasSuffix(n, ".generating") || strings.HasSuffix(n, ".receiving"):
+			if os.Getenv("VERIF_DEBUG") != "" {
+				p := fs.PathJoin(dir, n)
+				in, e1 := fs.List(p)
+				e2 := fs.RemoveAll(p)
+				l2, _ := fs.List(dir)
+				fmt.Fprintf(os.Stderr, "DEBUG temp dir %s: inside %v (%v); RemoveAll -> %v; listing now %v; isdir %v name %q\n", p, in, e1, e2, l2, fi.IsDir(), fi.Name())
+			}
+			fail("temp-dir-left", "temporary directory "+n+" survives the start-up cleanup", map[string]interface{}{"recorded": rec.Index})
+		default:
+			fail("unrecorded-dir-left", fmt.Sprintf("directory %s survives the start-up cleanup; the log store records snapshot %d", n, rec.Index), map[string]interface{}{"recorded": rec.Index})
+		}
+	}
+	if rec.Index == 0 {
+		return
+	}
+	sink.Count("snapshot_dirs_checked_with_a_recorded_snapshot", 1)
+	if len(before) > 1 {
+		sink.Count("snapshot_dirs_checked_with_several_entries_before_cleanup", 1)
+	}
+	if !seen {
+		fail("recorded-snapshot-dir-missing", fmt.Sprintf("the log store records snapshot %d (%s) but its directory does not exist", rec.Index, rec.Filepath), map[string]interface{}{"recorded": rec.Index})
+		return
+	}
+	sdir := fs.PathJoin(dir, want)
+	if fileutil.HasFlagFile(sdir, fileutil.SnapshotFlagFilename, fs) {
+		fail("flag-file-left", "the flag file survives the start-up cleanup in "+want, nil)
+	}
+	if rec.Witness || rec.Dummy {
+		return
+	}
+	if _, err := fs.Stat(rec.Filepath); err != nil {
+		fail("recorded-snapshot-file-missing", fmt.Sprintf("snapshot %d is recorded with file %s: %v", rec.Index, rec.Filepath, err), nil)
+		return
+	}
+	if !(&recLogDB{h: h}).loads(rec.Filepath) {
+		fi, _ := fs.Stat(rec.Filepath)
+		var sz int64
+		if fi != nil {
+			sz = fi.Size()
+		}
+		fail("recorded-snapshot-invalid", fmt.Sprintf("the file of the recorded snapshot %d (%d bytes on disk, recorded size %d) is not a complete valid snapshot image", rec.Index, sz, rec.FileSize), nil)
+		return
+	}
+	sink.Count("recorded_snapshot_files_loaded_after_restart", 1)
+}
+
+// repairNames: lni/vfs's MemFS keeps the name of a file in the node, not in the directory entry.
+// After ResetToSyncedState a directory entry that was renamed without a directory sync points to
+// a node that still carries the new name, so Stat(path).Name() differs from the entry - on a
+// real file system the name is the entry (snapshotter.processOrphans relies on that). Renaming
+// an entry to itself makes the two agree again without changing the tree.
+func repairNames(fs *gvfs.MemFS, dir string) {
+	names, err := fs.List(dir)
+	if err != nil {
+		return
+	}
+	for _, n := range names {
+		p := fs.PathJoin(dir, n)
+		st, err := fs.Stat(p)
+		if err != nil {
+			continue
+		}
+		if st.Name() != n {
+			_ = fs.Rename(p, p)
+		}
+		if st.IsDir() {
+			repairNames(fs, p)
+		}
+	}
 }
